@@ -31,7 +31,9 @@ THealth == /\ Is("Health") /\ Health
            /\ status' = [e \in EP |-> IF InDom(E.status, e) THEN E.status[e] ELSE "offline"] /\ known' = SetsOf(E.known)
            /\ Consume
 TReq    == Is("Req") /\ Arrive(E.route, E.model) /\ Consume
-TRecv   == Is("BackendRecv") /\ E.e \in EP /\ up[E.e] # "down" /\ Attempt(E.e) /\ Consume
+TRecv   == Is("BackendRecv") /\ E.e \in EP /\ up[E.e] # "down" /\ Attempt(E.e)
+           /\ E.target = PathAt(req.route, E.e)          \* passthrough exactly for native backends on the Anthropic route
+           /\ Consume
 TSilent == /\ \E e \in EP : up[e] = "down" /\ Attempt(e)
            /\ UNCHANGED <<l, scn>>
 TDone   == /\ Is("Done") /\ Answer
